@@ -835,7 +835,8 @@ def run(ctx):
                 r = rng.random()
                 existing = list(tr.rig.ctx.cdb.keys())
                 if r < 0.25:
-                    plan = [rng.choice(existing) for _ in range(rng.randint(1, 3))]      # colliding draws first
+                    # colliding draws first; the retry loop of the generator has no bound, so neither has the run
+                    plan = [rng.choice(existing) for _ in range(rng.choice([1, 2, 3, 3, 9, 10, 11, 17, 40]))]
                 tr.register(random_body(rng), plan_ids=plan)
                 clock.tick(rng.choice([0, 1, 1, 60, 100000]))
             if tr.rig.rd is not None:
